@@ -118,9 +118,11 @@ func runC08(ctx *Ctx) {
 // ---- textual inclusion: cut a document into files
 
 type cutter struct {
-	r     *Rng
-	files map[string][]byte
-	n     int
+	r      *Rng
+	files  map[string][]byte
+	n      int
+	nested map[string]bool // files that hold the children of a directive of the including file (not top-level blocks)
+	inKids bool
 }
 
 func joinRel(dir, name string) string {
@@ -150,6 +152,12 @@ func (c *cutter) place(fromDir string, content string, depth int) string {
 			dir = full[:i]
 		}
 		c.files[full] = nil // reserve
+		if c.inKids {
+			if c.nested == nil {
+				c.nested = map[string]bool{}
+			}
+			c.nested[full] = true
+		}
 		c.files[full] = []byte(c.cutBlocks(dir, splitTopBlocks(content), depth+1))
 		return rel
 	}
@@ -204,7 +212,11 @@ func (c *cutter) cutBlocks(dir string, blocks []string, depth int) string {
 			for _, l := range strings.SplitAfter(first[1], "\n") {
 				kids = append(kids, strings.TrimPrefix(l, "  "))
 			}
-			if rel := c.place(dir, strings.Join(kids, ""), depth); rel != "" {
+			was := c.inKids
+			c.inKids = true
+			rel := c.place(dir, strings.Join(kids, ""), depth)
+			c.inKids = was
+			if rel != "" {
 				b.WriteString(first[0] + "  INCLUDE " + rel + "\n")
 				i++
 				continue
